@@ -52,8 +52,20 @@ TransOK(cfg, s, e, t) ==
     [] e.op = "Clear"  -> t = <<>>
     [] OTHER           -> t = s
 
+\* ---- C12 on a load inside a map history (input: distinct keys and values, <<k1, v1, k2, v2, ...>>) ----
+LoadPairs(vs) == [i \in 1..(Len(vs) \div 2) |-> <<vs[2 * i - 1], vs[2 * i]>>]
+C12(pre, e) == e.op = "FromJSON" =>
+  /\ Completed(e)
+  /\ LET cfg == e.cfg  t == Ent(cfg, e.post)  in == LoadPairs(e.a.vs) IN
+       IF ~e.r[1] THEN t = Ent(cfg, pre)
+       ELSE /\ AsSet(t) = AsSet(in) /\ Len(t) = Len(in)
+            /\ (cfg.linked => t = in)                               \* textual order
+            /\ SortedOK(cfg, t)
+  /\ ObsWF(e.cfg, e.post)
+
 \* ---- C01: the containers behave as a map -------------------------------------------------------
 C01(pre, e) ==
+  e.op # "FromJSON" =>
   /\ Completed(e)
   /\ LET cfg == e.cfg  s == Ent(cfg, pre)  t == Ent(cfg, e.post) IN
      /\ TransOK(cfg, s, e, t)
@@ -100,7 +112,7 @@ C07(pre, e) ==
 
 \* ---- C09: linked hash map iterates in insertion order ------------------------------------------
 C09(pre, e) ==
-  e.cfg.linked =>
+  (e.cfg.linked /\ e.op # "FromJSON") =>
     LET cfg == e.cfg  o == e.post  s == EntRaw(pre)  t == EntRaw(o) IN
     /\ Completed(e)
     /\ TransOK(cfg, s, e, t)                 \* a present key never moves, a new key goes last, Remove keeps the rest
@@ -110,7 +122,7 @@ C09(pre, e) ==
 
 \* ---- C10: bidirectional maps are one-to-one ----------------------------------------------------
 C10(pre, e) ==
-  e.cfg.bidi =>
+  (e.cfg.bidi /\ e.op # "FromJSON") =>
     LET cfg == e.cfg  o == e.post  s == Ent(cfg, pre)  t == Ent(cfg, o) IN
     /\ Completed(e)
     /\ TransOK(cfg, s, e, t)
@@ -141,6 +153,7 @@ Obl(p, pre, e) ==
     [] p = "C07" -> C07(pre, e)
     [] p = "C09" -> C09(pre, e)
     [] p = "C10" -> C10(pre, e)
+    [] p = "C12" -> C12(pre, e)
     [] p = "C15" -> C15(pre, e)
     [] p = "C17" -> SilentOK(e)
     [] p = "C18" -> C18(pre, e)
